@@ -10,8 +10,8 @@ package main
 // unknown keys ignored, null leaving non-nullable destinations untouched.
 // Bounds (stated in the evidence): symbolic integers are single decimal digits on the wire, symbolic
 // string bytes are printable ASCII that JSON does not escape; floats, []byte (base64), TextMarshaler
-// keys, field-name conflicts between embedded structs are not modelled (the path is reported
-// unsupported). The differential twin compares every sampled path with the real encoding/json.
+// keys are not modelled (the path is reported unsupported); a name reached through several embedded
+// structs follows the dominant-field rule (least depth, then the single tagged one, else dropped). The differential twin compares every sampled path with the real encoding/json.
 
 import (
 	"bytes"
@@ -213,9 +213,42 @@ type jfield struct {
 	index     []int // path through embedded structs
 	typ       types.Type
 	omitEmpty bool
+	tagged    bool // the name comes from the json tag
 }
 
+// jsonFields: the fields encoding/json (de)codes for a struct, in index order. For a name reached several
+// times (embedded structs are flattened) the dominant field is kept: the one of least depth; among several
+// of least depth the single tagged one; otherwise none of them.
 func jsonFields(t *types.Struct, prefix []int, out []jfield, depth int) []jfield {
+	all := jsonFieldsAll(t, prefix, out, depth)
+	var kept []jfield
+	for i, f := range all {
+		dominant := true
+		ties, taggedTies := 0, 0
+		for j, g := range all {
+			if i == j || g.name != f.name {
+				continue
+			}
+			if len(g.index) < len(f.index) {
+				dominant = false
+			} else if len(g.index) == len(f.index) {
+				ties++
+				if g.tagged {
+					taggedTies++
+				}
+			}
+		}
+		if dominant && ties > 0 && !(f.tagged && taggedTies == 0) {
+			dominant = false
+		}
+		if dominant {
+			kept = append(kept, f)
+		}
+	}
+	return kept
+}
+
+func jsonFieldsAll(t *types.Struct, prefix []int, out []jfield, depth int) []jfield {
 	if depth > 6 {
 		return out
 	}
@@ -236,17 +269,18 @@ func jsonFields(t *types.Struct, prefix []int, out []jfield, depth int) []jfield
 				if _, isPtr := f.Type().Underlying().(*types.Pointer); isPtr {
 					continue // embedded pointers to structs: not modelled (skipped with a note by the caller)
 				}
-				out = jsonFields(st, idx, out, depth+1)
+				out = jsonFieldsAll(st, idx, out, depth+1)
 				continue
 			}
 		}
 		if !f.Exported() {
 			continue
 		}
+		tagged := true
 		if name == "" || !jsonValidTag(name) {
-			name = f.Name()
+			name, tagged = f.Name(), false
 		}
-		out = append(out, jfield{name: name, index: idx, typ: f.Type(), omitEmpty: strings.Contains(","+opts+",", ",omitempty,")})
+		out = append(out, jfield{name: name, index: idx, typ: f.Type(), omitEmpty: strings.Contains(","+opts+",", ",omitempty,"), tagged: tagged})
 	}
 	return out
 }
